@@ -252,6 +252,135 @@ def run(db, rep, feat, tier):
                     cmp_ok = True
     r.decide(cmp_ok, "entry_equality", db.where(mb), "the entry comparison must be an equality with the successor")
 
+    # ---------------------------------------------------------------- R9 edge endpoints
+    r = rep.rule("R9", "K5", "edge endpoints: every edge between lifted blocks (manual edges and successor edges, and the duplicate test that "
+                 "precedes them) leaves the exit vertex of its head block and enters the entry vertex of its tail block; the pair "
+                 "recorded per block is (entry of its first instruction, exit of its last)")
+    bi = maps["block_indices"]
+
+    def proj(t):
+        """('.0' | '.1', key term) if t is a component of a block_indices lookup."""
+        if isinstance(t, tuple) and t[0] == "field" and isinstance(t[1], tuple) and t[1][0] == "call" and t[1][1].endswith("ops::Index<&Q>>::index") \
+                and t[1][2] and t[1][2][0] == bi:
+            return t[2]
+        return None
+
+    n = 0
+    for i, t in mir_calls(body):
+        c = mir_callee(t) or ""
+        if c not in (CFGT + "::edge", CFGT + "::conditional_edge", CFGT + "::unconditional_edge"):
+            continue
+        h, tl = proj(tm.operand(t["args"][1])), proj(tm.operand(t["args"][2]))
+        if h is None and tl is None:
+            continue       # stitching inside a block: R4
+        n += 1
+        r.decide(h == ".1" and tl == ".0", "endpoints|%s|%d" % (last_seg(c), n), where(i),
+                 "%s is called with head component %s and tail component %s of the (entry, exit) pairs; an edge must leave the head "
+                 "block's exit (.1) and enter the tail block's entry (.0)" % (last_seg(c), h, tl))
+    r.floor(6, "inter-block edge calls")
+    binsert = [(i, t) for i, t in calls(body, "BTreeMap::<K, V, A>::insert") if recv(t, "block_indices")]
+    rep.anchor(len(binsert) == 1, "block_indices.insert")
+    v = tm.operand(binsert[0][1]["args"][2])
+    ok = isinstance(v, tuple) and v[0] == "tuple" and len(v[1]) == 2
+    comp = []
+    if ok:
+        def outer(c_):
+            if isinstance(c_, tuple) and c_ and c_[0] == "phi":
+                o_ = set()
+                for a_ in c_[1]:
+                    o_ |= outer(a_)
+                return o_
+            if isinstance(c_, tuple) and len(c_) == 3 and c_[0] == "field":
+                return {c_[2]}
+            return set()
+        for c_ in v[1]:
+            comp.append(outer(c_))
+    r.decide(ok and ".0" in comp[0] and ".1" not in comp[0] and ".1" in comp[1] and ".0" not in comp[1], "recorded_pair", where(binsert[0][0]),
+             "the pair recorded per block must be (entry component, exit component) of its instructions; components use %s" % comp)
+
+    # ---------------------------------------------------------------- R10 ControlFlowGraph::insert
+    INS = CFGT + "::insert"
+    ib = db.mir.get(INS)
+    rep.anchor(ib is not None, INS)
+    rep.analysed(INS)
+    r = rep.rule("R10", "K6", "ControlFlowGraph::insert returns (new index of the inserted graph's entry, new index of its exit): the "
+                 "variable that becomes component 0 is assigned only under a comparison with other.entry(), component 1 only under a "
+                 "comparison with other.exit()")
+    icfg = Cfg(ib)
+    itm = terms_of(db, INS, {})
+    for nm, acc in (("entry_index", "::entry"), ("exit_index", "::exit")):
+        l = local_of(ib, nm)
+        if l is None:
+            r.open("insert|%s" % nm, db.where(ib), "local %s not found" % nm)
+            continue
+        sites = [(bi_, s_) for bi_, b in enumerate(ib["blocks"]) for s_ in b["s"] if s_["d"] == [l] and not s_.get("rv", {}).get("variant", "").endswith("None")]
+        good = bool(sites)
+        for bi_, s_ in sites:
+            guarded = False
+            for j, b in enumerate(ib["blocks"]):
+                if b["t"]["k"] == "SwitchInt" and j != bi_ and icfg.dominates(j, bi_):
+                    ct = itm.operand(b["t"]["discr"])
+                    if isinstance(ct, tuple) and ct[0] == "bin" and ct[1] == "Eq" and from_call(ct, CFGT + acc):
+                        # the assignment must sit on the `equal` side: not reachable from the false target without passing the switch again
+                        false_t = [tg for v_, tg in b["t"]["targets"] if v_ == 0]
+                        if false_t and bi_ not in icfg.reachable(false_t[0], avoid=[j]):
+                            guarded = True
+            good = good and guarded
+        r.decide(good, "insert|%s" % nm, db.where(ib, sites[0][1]["l"]) if sites else db.where(ib),
+                 "%s is assigned without being guarded by `block.index() == other%s()`: the returned index is not the inserted graph's %s" % (
+                     nm, acc.replace("::", "."), acc[2:]))
+    ret = itm.local(0)
+    oks = [x for x in subterms(ret) if isinstance(x, tuple) and x and x[0] == "agg" and str(x[1]).endswith("Ok")]
+    good = False
+    for o in oks:
+        tp = o[2][0] if o[2] else None
+        if isinstance(tp, tuple) and tp[0] == "tuple" and len(tp[1]) == 2:
+            e_l, x_l = local_of(ib, "entry_index"), local_of(ib, "exit_index")
+            good = itm.local(e_l) in list(subterms(tp[1][0])) and itm.local(x_l) in list(subterms(tp[1][1]))
+    r.decide(good, "insert|returned_pair", db.where(ib), "insert must return (entry_index, exit_index) in this order")
+
+    # ---------------------------------------------------------------- R11 MIPS delay slot room
+    r = rep.rule("R11", "K9", "MIPS window end: in a full 64-byte window a branch is lifted only when at least 8 bytes (branch and delay "
+                 "slot) remain; the look-ahead guard is evaluated for every word offset of the window")
+    hbm, mm = lifters.insn_matches(db, "mips")
+    rep.anchor(len(mm) == 3, "mips look-ahead match")
+    pre = mm[1]
+    guards = []
+    from db import walk, strip
+    mhb = db.hir[lifters.TB["mips"]]
+    for a in pre.arms:
+        if a["wild"]:
+            continue
+        for x in walk(a["arm"].body):
+            if x.get("k") == "If":
+                guards.append(x)
+    rep.anchor(len(guards) >= 1, "the look-ahead guard")
+    g = guards[0]
+    lets = {}
+    for x in walk(mhb["body"]):
+        if x.get("k") == "Block":
+            for st in x.get("stmts", ()):
+                if st["k"] == "Let" and "init" in st and st["pat"].get("k") == "Bind":
+                    lets[st["pat"]["hid"]] = st["init"]
+    worst = None
+    undecided = False
+    for L in (64,):          # a full window; shorter windows mean the mapped memory ends and nothing follows
+        for o in range(0, L + 1, 4):
+            v = evalg(g["c"], {"offset": o, "len": L, "db": db}, lets)
+            if v is None:
+                undecided = True
+                break
+            if v is False and L - o < 8 and (worst is None or L - o < worst[1] - worst[0]):
+                worst = (o, L)
+        if undecided:
+            break
+    if undecided:
+        r.open("mips|delay_slot_room", db.where(mhb, g["l"]), "guard is not an arithmetic comparison of offset and bytes.len()")
+    else:
+        r.decide(worst is None, "mips|delay_slot_room", db.where(mhb, g["l"]),
+                 "with offset %s in a window of %s bytes (%s bytes left) the branch is lifted although its delay slot is not in the "
+                 "window: the delay-slot instruction is lost" % (worst and worst[0], worst and worst[1], worst and worst[1] - worst[0]))
+
     # ---------------------------------------------------------------- R8 window end in the block translators
     c05.r5(db, rep, c05.ARCHES, "R8")
     r = rep.rule("R8b", "K6", "window end: each block translator pushes an unguarded fall-through successor when it stops because the "
@@ -276,6 +405,51 @@ def run(db, rep, feat, tier):
                     found = True
         r.decide(found, "%s|fallthrough_successor" % arch, db.where(b),
                  "%s translate_block never pushes the unguarded successor (address + offset, None)" % arch)
+
+
+def evalg(e, env, lets, depth=0):
+    """Finite evaluation of a pure arithmetic guard over (offset, bytes.len()); None = not understood."""
+    from db import strip
+    e = strip(e)
+    k = e.get("k")
+    if depth > 12:
+        return None
+    if k == "Lit" and "int" in e["v"]:
+        return e["v"]["int"]
+    if k == "Path" and "def" in e.get("res", {}) and "local" not in e["res"]:
+        h = env["db"].hir.get(e["res"]["def"]) if "db" in env else None
+        if h is not None and h.get("body", {}).get("k") == "Lit" and "int" in h["body"]["v"]:
+            return h["body"]["v"]["int"]
+        return None
+    if k == "Path" and "local" in e.get("res", {}):
+        nm = e["res"]["local"]
+        if nm == "offset":
+            return env["offset"]
+        init = lets.get(e["res"].get("hid"))
+        return evalg(init, env, lets, depth + 1) if init is not None else None
+    if k == "MethodCall" and e["name"] == "len":
+        return env["len"]
+    if k == "Cast":
+        return evalg(e["e"], env, lets, depth + 1)
+    if k == "Binary":
+        a, b = evalg(e["a"], env, lets, depth + 1), evalg(e["b"], env, lets, depth + 1)
+        if a is None or b is None:
+            return None
+        op = e["op"]
+        if op == "Add":
+            return a + b
+        if op == "Sub":
+            return a - b if a >= b else 0      # usize subtraction: an underflow would panic, which C05 covers
+        if op == "Mul":
+            return a * b
+        if op in ("Lt", "Le", "Gt", "Ge", "Eq", "Ne"):
+            return {"Lt": a < b, "Le": a <= b, "Gt": a > b, "Ge": a >= b, "Eq": a == b, "Ne": a != b}[op]
+        if op in ("And", "Or") and isinstance(a, bool) and isinstance(b, bool):
+            return (a and b) if op == "And" else (a or b)
+    if k == "Unary" and e["op"] == "Not":
+        v = evalg(e["e"], env, lets, depth + 1)
+        return (not v) if isinstance(v, bool) else None
+    return None
 
 
 def calls_in_any(t):
